@@ -20,7 +20,7 @@ func init() {
 			{Name: "decode error of a subgraph's errors array returned as the operation's error (reverts the F43 fix)", File: "v2/pkg/engine/resolve/loader.go", Rule: "C07-R10", Key: "Loader.appendSubgraphError/decode-error-of-subgraph-errors-not-returned",
 				Old: "\t\tgraphqlErrors = graphqlErrors[:0]\n", New: "\t\treturn errors.WithStack(err)\n"},
 			{Name: "single-flight leader no longer stores its error in the shared item (seeded change C07-21)", File: "v2/pkg/engine/resolve/loader.go", Rule: "C07-R9", Key: "Loader.loadByContext/leader-publishes-error",
-				Old: "\tif err != nil {\n\t\titem.err = err\n\t\treturn err\n\t}\n", New: "\tif err != nil {\n\t\treturn err\n\t}\n"},
+				Old: "\t\titem.err = err\n\t\t// the leader's own context ended", New: "\t\t// the leader's own context ended"},
 			{Name: "subscription updates render without the loader's errors", File: "v2/pkg/engine/resolve/resolve.go", Rule: "C07-R8", Key: "executeSubscriptionUpdate/hands-over-all-loader-output",
 				Old: "\t\t\tresolvable.errors = loader.errors\n", New: "\t\t\t_ = loader.errors\n"},
 			{Name: "only the first target of a de-duplicated entity is tainted (seeded change C07-12)", File: loaderGo, Rule: "C07-R7", Key: "taint-covers-merge-target:target",
@@ -44,8 +44,8 @@ func init() {
 			{Name: "parallel fetches cancel each other through errgroup.WithContext", File: loaderGo, Rule: "C07-R5", Key: "WithContext",
 				Old: "\tvar g errgroup.Group\n\tfor i := range nodes {\n\t\tnode := nodes[i]\n\t\tg.Go(func() error {", New: "\tg, ctx := errgroup.WithContext(ctx)\n\tfor i := range nodes {\n\t\tnode := nodes[i]\n\t\tg.Go(func() error {"},
 			{Name: "failed single-flight leader never releases followers", File: loaderGo, Rule: "C07-R6", Key: "loadByContext",
-				Old: "\tdefer l.singleFlight.Finish(item)\n\n\t// Perform the actual load\n\terr := l.loadByContextDirect(ctx, source, headers, input, res)\n\tif err != nil {\n\t\titem.err = err\n\t\treturn err\n\t}\n",
-				New: "\t// Perform the actual load\n\terr := l.loadByContextDirect(ctx, source, headers, input, res)\n\tif err != nil {\n\t\titem.err = err\n\t\treturn err\n\t}\n\tdefer l.singleFlight.Finish(item)\n"},
+				Old: "\tdefer l.singleFlight.Finish(item)\n\n\t// Perform the actual load\n\terr := l.loadByContextDirect(ctx, source, headers, input, res)\n\tif err != nil {\n\t\titem.err = err\n\t\t// the leader's own context ended (its client went away, or its deadline passed):\n\t\t// the error is the leader's, the followers load on their own\n\t\titem.leaderGone = ctx.Err() != nil\n\t\treturn err\n\t}\n",
+				New: "\t// Perform the actual load\n\terr := l.loadByContextDirect(ctx, source, headers, input, res)\n\tif err != nil {\n\t\titem.err = err\n\t\t// the leader's own context ended (its client went away, or its deadline passed):\n\t\t// the error is the leader's, the followers load on their own\n\t\titem.leaderGone = ctx.Err() != nil\n\t\treturn err\n\t}\n\tdefer l.singleFlight.Finish(item)\n"},
 		},
 	}
 }
